@@ -13,7 +13,11 @@ use pest_typed::TypedNode;
 /// MIN <= n <= MAX, n == reference count, parse == check == reference, and the final cursor is the
 /// end of the last matched iteration (a skip not followed by a matched iteration is given back).
 fn rep_abs<const SKIP: usize, const MIN: usize, const MAX: usize, const KIND: u8>(d0: usize) {
-    abs_init(3, PROG);
+    rep_abs_with::<SKIP, MIN, MAX, KIND>(d0, PROG)
+}
+/// `adv` = FREE: the element may also match without consuming input (legal under a bounded MAX: `("a"*){1,3}`, `DROP{1,3}`)
+fn rep_abs_with<const SKIP: usize, const MIN: usize, const MAX: usize, const KIND: u8>(d0: usize, adv: [u8; ABS_IDS]) {
+    abs_init(3, adv);
     let p0 = nd::usize();
     nd::assume(p0 <= 3);
     let (o, v) = pc_ref::<RepMinMax<Abs<0, KIND>, AbsSkip<3>, SKIP, MIN, MAX>, RRep<RSk, SKIP, RAbs<0, KIND>, MIN, MAX>>(XXX, p0, d0);
@@ -99,6 +103,9 @@ harnesses! {
     #[kani::unwind(8)] fn c19_mm_0_2_n() [T0 S] : "Q|RepMinMax<_,0,2> without skip" { rep_abs::<0, 0, 2, 0>(0) }
     #[kani::unwind(8)] fn c19_mm_1_2_n() [T0 S] : "Q|RepMinMax<_,1,2> without skip" { rep_abs::<0, 1, 2, 0>(0) }
     #[kani::unwind(8)] fn c19_mm_2_3_n() [T0 S] : "Q|RepMinMax<_,2,3> without skip" { rep_abs::<0, 2, 3, 1>(0) }
+    #[kani::unwind(8)] fn c19_mm_1_3_s_empty() [T0 S] : "Q|RepMinMax<_,1,3> with skip, element may match empty: still greedy up to MAX" { rep_abs_with::<1, 1, 3, 0>(0, FREE) }
+    #[kani::unwind(8)] fn c19_mm_0_2_n_empty_pop() [T0 S] : "Q|RepMinMax<pop-kind,0,2> no skip, element may match empty (DROP{0,2}): performs MAX stack operations when it can" { rep_abs_with::<0, 0, 2, 2>(3, FREE) }
+    #[kani::unwind(8)] fn c19_mm_2_3_s_empty_push() [T0 S] : "Q|RepMinMax<push-kind,2,3> with skip, element may match empty" { rep_abs_with::<1, 2, 3, 1>(0, FREE) }
     #[kani::unwind(8)] fn c19_mm_1_4_s() [T0 S] : "T|RepMinMax<_,1,4> with skip (MAX beyond the input)" { rep_abs::<1, 1, 4, 0>(0) }
     // ---- RepMin: MIN 0..3, skip on/off
     #[kani::unwind(8)] fn c19_min_0_s() [T0 S] : "Q|RepMin<_,0> with skip" { repmin_abs::<1, 0, 0>(0) }
